@@ -1,5 +1,9 @@
 #include "pipeline.h"
 
+#include <filesystem>
+#include <cstdlib>
+#include <cstdio>
+
 #include <libcellml>
 
 #include <libxml/parser.h>
@@ -244,6 +248,68 @@ void runPipeline(const std::string &doc, const PipelineCfg &cfg, Case &c)
                     flatForAnalysis = flat;
                 }
             }
+        }
+    }
+    // the same library as files on disk: the importer opens, parses (strict or permissive) and reports on them itself
+    if (cfg.libraryFiles && (cfg.selfLibrary || !cfg.extraDoc.empty())) {
+        std::set<std::string> urls;
+        collectImportUrls(model, urls);
+        namespace fs = std::filesystem;
+        const char *runDir = getenv("VERIF_RUN_DIR");
+        std::string templ = std::string(runDir != nullptr ? runDir : "/tmp") + "/c01lib-XXXXXX";
+        std::vector<char> buf(templ.begin(), templ.end());
+        buf.push_back('\0');
+        if (!urls.empty() && mkdtemp(buf.data()) != nullptr) {
+            const fs::path scratch(buf.data());
+            const fs::path base = scratch / "base";
+            std::error_code ec;
+            fs::create_directories(base, ec);
+            size_t k = 0, written = 0;
+            for (const auto &u : urls) {
+                ++k;
+                if (u.empty() || u.size() > 200 || u[0] == '/' || u.find_first_not_of("abcdefghijklmnopqrstuvwxyzABCDEFGHIJKLMNOPQRSTUVWXYZ0123456789_.-/") != std::string::npos) {
+                    continue; // only plain relative names are written; everything else stays a missing file
+                }
+                fs::path target = (base / u).lexically_normal();
+                if (target.string().compare(0, scratch.string().size() + 1, scratch.string() + "/") != 0) {
+                    continue;
+                }
+                fs::create_directories(target.parent_path(), ec);
+                const std::string &text = (!cfg.extraDoc.empty() && ((k - 1) % 2 == 0 || !cfg.selfLibrary)) ? cfg.extraDoc : doc;
+                FILE *f = fopen(target.c_str(), "w");
+                if (f != nullptr) {
+                    fwrite(text.data(), 1, text.size(), f);
+                    fclose(f);
+                    ++written;
+                }
+            }
+            if (written > 0) {
+                c.cls("imports-resolved-from-files");
+                auto importer = Importer::create(cfg.strict);
+                ModelPtr m3 = model->clone();
+                bool ok = importer->resolveImports(m3, base.string() + "/");
+                bool fine = monitor(c, importer, "Importer");
+                if (fine && !ok && importer->issueCount() == 0) {
+                    c.fail("C15.unexplained-failure|Importer::resolveImports", "resolveImports returned false without any issue (files)");
+                    fine = false;
+                }
+                if (fine && ok) {
+                    c.cls("stage:resolved-from-files");
+                }
+                if (fine && !cfg.skipFlatten) {
+                    ModelPtr flat = importer->flattenModel(m3);
+                    fine = monitor(c, importer, "Importer");
+                    if (fine && flat == nullptr && importer->issueCount() == 0) {
+                        c.fail("C15.unexplained-failure|Importer::flattenModel", "flattenModel returned null without any issue (files)");
+                        fine = false;
+                    }
+                }
+                if (!fine) {
+                    fs::remove_all(scratch, ec);
+                    return;
+                }
+            }
+            fs::remove_all(scratch, ec);
         }
     }
     if (!cfg.skipAnalysis) {
